@@ -262,6 +262,8 @@ class ValueGen:
     def int_(self, base):
         m = INT_MAX[base]
         r = self.rng
+        if base == "byte" and self.lossless:
+            m = 254   # a raw 0xFF byte is a chunk break for every chunked reader downstream: outside the round-trip domain
         return r.choice([0, 1, m - 1, m, r.randrange(m + 1), r.randrange(min(m, 300) + 1), r.randrange(min(m, 10) + 1)])
 
     def string(self, n):
@@ -285,6 +287,8 @@ class ValueGen:
             return it.length
         if it.lenfield is not None:
             lo, hi = max(0, it.lenfield.offset), INT_MAX[it.lenfield.t.base] + it.lenfield.offset
+            if it.lenfield.t.base == "byte" and self.lossless:
+                hi -= 1   # keep the raw length byte below 0xFF (see int_)
             n = r.choice([lo, lo + 1, lo + r.randrange(5), lo + r.randrange(9)])
             if not small and r.random() < 0.04 and hi <= 70000:
                 n = hi
@@ -420,7 +424,7 @@ class ValueGen:
                 hi = INT_MAX[it.lenfield.t.base] + it.lenfield.offset
                 if hi + 1 <= 70000:
                     S.append((kw, it.name, f"{p}: string length {hi + 1} over length-field limit {hi}",
-                              lambda: (cur * (hi + 2) + "x" * (hi + 1))[:hi + 1]))
+                              lambda: (cur * ((hi + 1) // max(1, len(cur)) + 1) + "x" * (hi + 1))[:hi + 1]))
 
     def _array_sites(self, kw, it: It, p: str):
         r, S = self.rng, self.sites
@@ -1406,6 +1410,48 @@ _CATALOGUE = [
   <struct name="DummyAfter"><field name="s" type="string"/><dummy type="char">9</dummy></struct>
   <struct name="RawBeforeChunk"><field name="raw" type="byte"/><chunked><field name="s" type="string"/><break/><field name="t" type="string"/></chunked></struct>
   <struct name="FreeDelimited"><chunked><array name="ws" type="string" delimited="true" trailing-delimiter="false"/><break/><field name="k" type="char"/></chunked></struct>
+</protocol>""")]),
+    ("sized strings of different lengths in structs used as elements of length-less arrays (element fixed size)", True, [("", """<protocol>
+  <struct name="TagA"><field name="t" type="string" length="4"/></struct>
+  <struct name="EntryB"><field name="code" type="string" length="2"/><field name="n" type="char"/></struct>
+  <struct name="EntryC"><field name="code" type="encoded_string" length="3" padded="true"/><field name="w" type="short"/><field type="string" length="1">x</field></struct>
+  <struct name="Ledger"><field name="head" type="TagA"/><array name="entries" type="EntryB"/></struct>
+  <struct name="Ledger2"><field name="head" type="TagA"/><field name="e" type="EntryB"/><array name="entries" type="EntryC"/></struct>
+</protocol>""")]),
+    ("nested chunked sections with strings after the inner section; optionals across breaks", True, [("map", """<protocol>
+  <struct name="Nest">
+    <chunked>
+      <field name="a" type="string"/><break/>
+      <chunked><field name="b" type="char"/></chunked>
+      <field name="c" type="string"/><break/>
+      <field name="k" type="char"/>
+      <switch field="k"><case value="1"><chunked><field name="p" type="string" length="2"/></chunked><field name="q" type="string"/></case></switch>
+      <break/>
+    </chunked>
+    <field name="tail" type="string"/>
+  </struct>
+  <struct name="OptBreaks">
+    <chunked>
+      <field name="o1" type="char" optional="true"/><field name="o2" type="string" optional="true"/><break/>
+      <field name="o3" type="short" optional="true"/><field name="o4" type="string" optional="true"/><break/>
+      <field name="o5" type="string" optional="true"/>
+    </chunked>
+  </struct>
+</protocol>""")]),
+    ("delimited arrays without trailing delimiter followed by a break; counted delimited arrays", True, [("pub", """<protocol>
+  <struct name="Line"><field name="id" type="char"/><field name="text" type="string"/></struct>
+  <struct name="Party">
+    <chunked>
+      <field name="name" type="string"/><break/>
+      <length name="n" type="char"/>
+      <array name="lines" type="Line" length="n" delimited="true" trailing-delimiter="false"/><break/>
+      <field name="motto" type="string"/><break/>
+      <array name="fixed_lines" type="Line" length="2" delimited="true" trailing-delimiter="false"/><break/>
+      <field name="level" type="char"/><break/>
+      <array name="tr" type="Line" length="2" delimited="true"/>
+      <field name="after" type="char"/>
+    </chunked>
+  </struct>
 </protocol>""")]),
 ]
 
